@@ -47,6 +47,14 @@ func (c *chainHeaders) reorgAbove(height int) {
 	c.known[c.chain[n]] = n
 }
 
+// extend adds one header on top of the current best chain.
+func (c *chainHeaders) extend() {
+	n := len(c.chain)
+	branch := int(c.chain[n-1][1])
+	c.chain = append(c.chain, chainHash(branch, n))
+	c.known[c.chain[n]] = n
+}
+
 func (c *chainHeaders) Height() int              { return len(c.chain) - 1 }
 func (c *chainHeaders) LastHash() bitcoin.Hash32 { return c.chain[len(c.chain)-1] }
 func (c *chainHeaders) HashHeight(h bitcoin.Hash32) int {
@@ -80,10 +88,18 @@ func (c *chainHeaders) PreviousHash(h bitcoin.Hash32) (*bitcoin.Hash32, int) {
 }
 
 type blockTxMap struct {
-	done map[bitcoin.Hash32]bool
+	done   map[bitcoin.Hash32]bool
+	calls  int
+	hookAt int    // FetchBlockTxIDs call index at which hook runs (-1: never)
+	hook   func() // e.g. a new header arrives while the synchroniser walks back
 }
 
 func (b *blockTxMap) FetchBlockTxIDs(ctx context.Context, h bitcoin.Hash32) ([]bitcoin.Hash32, bool, error) {
+	k := b.calls
+	b.calls++
+	if k == b.hookAt && b.hook != nil {
+		b.hook()
+	}
 	return nil, b.done[h], nil
 }
 func (b *blockTxMap) AppendBlockTxIDs(ctx context.Context, h bitcoin.Hash32, t []bitcoin.Hash32) error {
@@ -106,7 +122,7 @@ func VerifC05Synchronize() {
 	length := 2 + pick("length", verifParam("maxlength", 4)) // tip height 2..
 	start := pick("start", length+2)                        // start height 0..length+1
 	hs := newChainHeaders(length)
-	btm := &blockTxMap{done: map[bitcoin.Hash32]bool{}}
+	btm := &blockTxMap{done: map[bitcoin.Hash32]bool{}, hookAt: -1}
 	processedBefore := make([]bool, length+1)
 	for h := 0; h <= length; h++ {
 		if nondetBool(fmt.Sprintf("processed%d", h)) {
@@ -132,6 +148,11 @@ func VerifC05Synchronize() {
 		failAt = pick("fail-at-request", 3)
 	}
 	retrigger := nondetBool("trigger-during-round")
+	newHeaderDuringWalk := false
+	if nondetBool("new-header-while-walking-back") {
+		newHeaderDuringWalk = true
+		btm.hookAt = pick("walk-call", 3)
+	}
 
 	var log []requestRec
 	round := 0
@@ -181,6 +202,13 @@ func VerifC05Synchronize() {
 			want = append(want, h)
 		}
 	}
+	if newHeaderDuringWalk {
+		btm.hook = func() {
+			hs.extend()
+			m.TriggerBlockSynchronize(ctx)
+			verifReach("header-arrived-during-walk-back")
+		}
+	}
 	m.TriggerBlockSynchronize(ctx)
 	m.syncBlocksWait.Wait() // natively this waits for real timers (10 s orphan poll); virtual under the engine
 	left := verifQuiesce()
@@ -217,11 +245,18 @@ func VerifC05Synchronize() {
 	if len(want) > 0 && len(r0) > 0 {
 		verifAssert(r0[0].height == want[0], "round-does-not-start-at-first-unprocessed-block")
 	}
-	if reorgAt == -1 && failAt == -1 {
+	if reorgAt == -1 && failAt == -1 && !newHeaderDuringWalk {
 		verifAssert(len(r0) == len(want), "round-did-not-request-every-unprocessed-best-chain-block")
 	}
-	if len(want) == 0 {
+	if len(want) == 0 && !newHeaderDuringWalk {
 		verifAssert(len(log) == 0, "blocks-requested-although-in-sync-or-below-start")
+	}
+	// nothing went wrong at the source and the chain only grew: when the reader goes idle every
+	// best-chain block from the first one it had to process up to the current tip is processed
+	if reorgAt == -1 && failAt == -1 && len(want) > 0 && hs.Height() >= start {
+		for ht := want[0]; ht <= hs.Height(); ht++ {
+			verifAssert(btm.done[hs.chain[ht]], "reader-idle-with-unprocessed-best-chain-block")
+		}
 	}
 	// later rounds continue on the then-current best chain
 	for _, r := range log {
